@@ -194,3 +194,39 @@ Proof.
     vm_compute. auto 10.
 Qed.
 Print Assumptions naive_neg_refuted.
+
+(* ---- non-linear recursion needs one delta rule per OCCURRENCE (seeded change C20-1).
+   Witness  start=0 step=1 link=2 reach=3:
+     start(1). step(1,2). step(3,4). link(1,2,3).
+     reach(X) :- start(X).  reach(Y) :- reach(X), step(X,Y).
+     reach(Y) :- reach(X), reach(Z), link(X,Z,Y).
+   reach(2) is derived one round after reach(1): the instance X=1, Z=2 of the third rule
+   has its newest fact at the SECOND occurrence of reach. A semi-naive loop whose delta
+   rules cover only the first occurrence of each body predicate (Run.C20.delta_rules_once)
+   finishes without reach(3); the naive model and the semi-naive model (one delta rule per
+   occurrence, Strata.delta_positions) both finish with it. *)
+Definition d_Z := TVar 3.
+Definition d_prog : list clause :=
+  [ mkClause (mkAtom 3 [w_X]) [PAtom (mkAtom 0 [w_X])] [];
+    mkClause (mkAtom 3 [w_Y]) [PAtom (mkAtom 3 [w_X]); PAtom (mkAtom 1 [w_X; w_Y])] [];
+    mkClause (mkAtom 3 [w_Y]) [PAtom (mkAtom 3 [w_X]); PAtom (mkAtom 3 [d_Z]); PAtom (mkAtom 2 [w_X; d_Z; w_Y])] [] ].
+Definition d_layers : list (list Z) := [[3]].
+Definition d_init : list fact :=
+  [ (0, [CNum 1]); (1, [CNum 1; CNum 2]); (1, [CNum 3; CNum 4]); (2, [CNum 1; CNum 2; CNum 3]) ].
+Definition d_r3 : fact := (3, [CNum 3]).
+
+Theorem one_delta_rule_per_predicate_refuted :
+  exists Ronce Rn Rs,
+    eval_program_once 10 d_prog d_layers [] d_init = Ok Ronce /\
+    naive_program 10 d_prog d_layers [] d_init = Ok Rn /\
+    eval_program 10 d_prog d_layers [] d_init = Ok Rs /\
+    ~ In d_r3 Ronce /\ In d_r3 Rn /\ In d_r3 Rs.
+Proof.
+  eexists. eexists. eexists.
+  split; [vm_compute; reflexivity|]. split; [vm_compute; reflexivity|]. split; [vm_compute; reflexivity|].
+  split; [|split].
+  - intros H. vm_compute in H. repeat (destruct H as [H|H]; [discriminate H|]). destruct H.
+  - vm_compute. auto 20.
+  - vm_compute. auto 20.
+Qed.
+Print Assumptions one_delta_rule_per_predicate_refuted.
